@@ -239,12 +239,12 @@ func (c *Conn) WaitLine(from int, pred func(string) bool, timeout time.Duration)
 // ---- dialer registration ----
 
 var (
-	regOnce sync.Once
-	dmu     sync.Mutex
-	waiting = map[string]chan *Conn{}
-	failing = map[string]error{}
+	regOnce    sync.Once
+	dmu        sync.Mutex
+	waiting    = map[string]chan *Conn{}
+	failing    = map[string]error{}
 	presetFail = map[string]int{}
-	seq     int
+	seq        int
 )
 
 type dialer struct{ id string }
